@@ -227,12 +227,14 @@ def gen_debugger():
         packed.append("0x" + "".join("%x" % d for d in reversed(chunk)))
     default_trusted = Rig(False, False).app.trusted_hosts
     hosts = []
+    verdict_codes = []
     for h, k in HOSTS:
         try:
             verdict = host_is_trusted(h, default_trusted)
         except Exception:  # an escaping exception is not a verdict
             verdict = None
         code = {True: 1, False: 0, None: 2}[verdict]
+        verdict_codes.append(str(code))
         hosts.append(f"({lean_chars(h)}, {'TUE'.index(k)}, {code})")
     body = f"""namespace Wz.Gen.Debugger
 
@@ -248,8 +250,23 @@ def hosts : List (Option (List Char) × Nat × Nat) := {lean_list(hosts, 1)}
 /-- `DebuggedApplication.trusted_hosts` default -/
 def defaultTrusted : List (List Char) := [{", ".join("[" + ", ".join(f"Char.ofNat {ord(c)}" for c in t) + "]" for t in default_trusted)}]
 
+def nCmd : Nat := {len(CMDS)}
+def nSec : Nat := {len(SECRETS)}
+def nHost : Nat := {len(HOSTS)}
+def nCookie : Nat := {len(COOKIES)}
+def nFrame : Nat := {len(FRAMES)}
+
+/-- class column of `hosts` -/
+def hostClasses : List Nat := [{", ".join(str('TUE'.index(k)) for _, k in HOSTS)}]
+
+/-- live verdict column of `hosts` -/
+def hostVerdicts : List Nat := [{", ".join(verdict_codes)}]
+
 /-- number of points per packed row: the four fastest dimensions (cookie x frame x evalex x pin) -/
 def rowLen : Nat := {ROWLEN}
+
+/-- number of packed rows: command x secret x Host -/
+def nRows : Nat := {len(packed)}
 
 /-- observed outcome of the real `DebuggedApplication.__call__` for every point of the product, in
 mixed-radix order of `dims` (last dimension fastest), packed {ROWLEN} points per number as hex digits
@@ -257,13 +274,6 @@ mixed-radix order of `dims` (last dimension fastest), packed {ROWLEN} points per
 3 SecurityError (400), 4 the spy frame's eval ran, 5 console page, 6 printpin logged,
 7 printpin answered without logging, 8+2*auth+exhausted pinauth JSON, f anything else -/
 def rows : List Nat := {lean_list(packed, 4)}
-
-def digitsOf : Nat → Nat → List Nat
-  | 0, _ => []
-  | k + 1, n => n % 16 :: digitsOf k (n / 16)
-
-/-- one outcome code per point of the product -/
-def outcomes : List Nat := rows.flatMap (digitsOf rowLen)
 
 end Wz.Gen.Debugger
 """
